@@ -1,8 +1,9 @@
 (* C10 property theorems.  Statements + exact + Print Assumptions only. *)
-From Coq Require Import Permutation.
+From Coq Require Import Permutation Sorted.
 From ZV.Common Require Import Base.
 From ZV.C10 Require Import Model Spec ProofsPow2 ProofsRing ProofsHist ProofsVec ProofsValVec ProofsFixed.
-From ZV.C10 Require Import ModelValVec32 ProofsValVec32 ModelCases.
+From ZV.Gen Require Import ConstsC10.
+From ZV.C10 Require Import ModelValVec32 ProofsValVec32 ModelArena ProofsArena ModelStrVec ProofsStrVec ModelFixedLen ProofsFixedLen ModelCases.
 Open Scope N_scope.
 
 (* ensure_power_of_two (bit smearing) returns a power of two that is large enough, for every request up to 2^62 *)
@@ -341,3 +342,224 @@ Check valvec32_extend_truncation_refuted :
   vv32_run_with N false true vv_new [WExtend big] = UB /\
   vv32_run N vv_new [WExtend big] = Ok (vv_new, [(RErr, [])]).
 Print Assumptions valvec32_extend_truncation_refuted.
+
+(* ===================== SortableStrVec (ModelStrVec.v) ===================== *)
+
+(* the constants of the source (regenerated into gen/ConstsC10.v by the constant extractor on every run) have the
+   values the proofs rely on: the accessors' field widths are the 40/60 that push_str hard-codes, the masks are
+   all-ones of the field widths, and the constants the other models copy agree with the source *)
+Theorem strvec_consts_ok :
+  SSV_OFFSET_BITS = 40 /\ SSV_LENGTH_BITS = 20 /\ SSV_SEQ_ID_BITS = 4 /\
+  SSV_OFFSET_MASK = N.ones 40 /\ SSV_LENGTH_MASK = N.ones 20 /\ SSV_SEQ_ID_MASK = N.ones 4 /\
+  SSV_MAX_OFFSET = 2 ^ 40 - 1 /\ SSV_MAX_LENGTH = 2 ^ 20 - 1 /\
+  VV32_MAX_CAPACITY = MAX_CAPACITY /\ RING_INITIAL_CAPACITY = INITIAL_CAPACITY.
+Proof. exact ProofsStrVec.consts_ok. Qed.
+Check strvec_consts_ok :
+  SSV_OFFSET_BITS = 40 /\ SSV_LENGTH_BITS = 20 /\ SSV_SEQ_ID_BITS = 4 /\
+  SSV_OFFSET_MASK = N.ones 40 /\ SSV_LENGTH_MASK = N.ones 20 /\ SSV_SEQ_ID_MASK = N.ones 4 /\
+  SSV_MAX_OFFSET = 2 ^ 40 - 1 /\ SSV_MAX_LENGTH = 2 ^ 20 - 1 /\
+  VV32_MAX_CAPACITY = MAX_CAPACITY /\ RING_INITIAL_CAPACITY = INITIAL_CAPACITY.
+Print Assumptions strvec_consts_ok.
+
+(* CompactEntry: offset(), length() and seq_id() read back what push_str packed, for every offset, length and
+   sequence id that fits its field (bit-level: or of disjoint fields, mask, shift) *)
+Theorem strvec_entry_roundtrip :
+  forall o l s, o <= SSV_MAX_OFFSET -> l <= SSV_MAX_LENGTH -> s < 16 ->
+  ce_offset (ce_pack o l s) = o /\ ce_length (ce_pack o l s) = l /\ ce_seq_id (ce_pack o l s) = s.
+Proof. exact ProofsStrVec.ce_unpack. Qed.
+Check strvec_entry_roundtrip :
+  forall o l s, o <= SSV_MAX_OFFSET -> l <= SSV_MAX_LENGTH -> s < 16 ->
+  ce_offset (ce_pack o l s) = o /\ ce_length (ce_pack o l s) = l /\ ce_seq_id (ce_pack o l s) = s.
+Print Assumptions strvec_entry_roundtrip.
+
+(* strvec_refines_spec: for every sorting routine that returns a permutation of its input and every history of
+   push_str/get/len/iter/clear/sort_lexicographic/sort_by_length/sort_by(f)/get_sorted/iter_sorted, the arena +
+   packed-entry model never panics (no slice or index out of range) and returns exactly what a Vec of strings
+   with an index vector returns - Err exactly for a string longer than 2^20-1 bytes or an arena beyond 2^40-1
+   bytes - and ends related to it (arena = concatenation, entries = layout, index vector a permutation) *)
+Theorem strvec_refines_spec :
+  forall usort : forall T : Type, (T -> T -> comparison) -> list T -> list T,
+  (forall T c l, Permutation l (usort T c l)) ->
+  forall ops, exists v', ssv_run usort ssv_new ops = Done (v', snd (svs_run usort svs_new ops)) /\
+                         SV v' (fst (svs_run usort svs_new ops)).
+Proof. exact ProofsStrVec.strvec_refines_spec_proof. Qed.
+Check strvec_refines_spec :
+  forall usort : forall T : Type, (T -> T -> comparison) -> list T -> list T,
+  (forall T c l, Permutation l (usort T c l)) ->
+  forall ops, exists v', ssv_run usort ssv_new ops = Done (v', snd (svs_run usort svs_new ops)) /\
+                         SV v' (fst (svs_run usort svs_new ops)).
+Print Assumptions strvec_refines_spec.
+
+(* strvec_get_pushes: every push history whose strings fit the length field and whose total fits the offset field is
+   accepted, push k returns id k, get i is the i-th pushed string (None past the end), iter() yields the pushed
+   sequence *)
+Theorem strvec_get_pushes :
+  forall usort : forall T : Type, (T -> T -> comparison) -> list T -> list T,
+  (forall T c l, Permutation l (usort T c l)) ->
+  forall (ss : list bytes) i,
+  Forall (fun s => nlen s <= SSV_MAX_LENGTH) ss -> total_len ss <= SSV_MAX_OFFSET ->
+  exists v', ssv_run usort ssv_new (map SPush ss) = Done (v', map (fun k => OId (N.of_nat k)) (seq 0 (length ss))) /\
+             ssv_get v' i = Done (nth_error ss (N.to_nat i)) /\
+             ssv_iter v' = Done ss.
+Proof. exact ProofsStrVec.strvec_get_pushes_proof. Qed.
+Check strvec_get_pushes :
+  forall usort : forall T : Type, (T -> T -> comparison) -> list T -> list T,
+  (forall T c l, Permutation l (usort T c l)) ->
+  forall (ss : list bytes) i,
+  Forall (fun s => nlen s <= SSV_MAX_LENGTH) ss -> total_len ss <= SSV_MAX_OFFSET ->
+  exists v', ssv_run usort ssv_new (map SPush ss) = Done (v', map (fun k => OId (N.of_nat k)) (seq 0 (length ss))) /\
+             ssv_get v' i = Done (nth_error ss (N.to_nat i)) /\
+             ssv_iter v' = Done ss.
+Print Assumptions strvec_get_pushes.
+
+(* a push is refused exactly when a field would overflow: the length does not fit 20 bits or the arena would
+   outgrow the 40-bit offset field (the code's `offset > MAX_OFFSET/2 && ...` shortcut is equivalent) *)
+Theorem strvec_push_refused_iff :
+  forall v st s, SV v st ->
+  (snd (ssv_push_str_with true v s) = OErr <->
+   SSV_MAX_LENGTH < nlen s \/ SSV_MAX_OFFSET < total_len (sl st) + nlen s).
+Proof. exact ProofsStrVec.strvec_push_refused_iff_proof. Qed.
+Check strvec_push_refused_iff :
+  forall v st s, SV v st ->
+  (snd (ssv_push_str_with true v s) = OErr <->
+   SSV_MAX_LENGTH < nlen s \/ SSV_MAX_OFFSET < total_len (sl st) + nlen s).
+Print Assumptions strvec_push_refused_iff.
+
+(* strvec_sort_is_sorted_perm: for every sorting routine meeting the contract of slice::sort_unstable_by (a
+   permutation; sorted when the comparator is a total preorder), sort_lexicographic()/sort() does not panic,
+   leaves the strings and their insertion order untouched (still related to the same sequence: only the index
+   vector changed), and the sorted view is a permutation of the pushed strings in byte-lexicographic order - which
+   is unique, hence independent of the routine (no stability is claimed: the code sorts unstably and equal strings
+   are indistinguishable) *)
+Theorem strvec_sort_is_sorted_perm :
+  forall usort : forall T : Type, (T -> T -> comparison) -> list T -> list T,
+  (forall T c l, Permutation l (usort T c l)) ->
+  (forall T c l, total_preorder c -> StronglySorted (fun a b => c a b <> Gt) (usort T c l)) ->
+  forall v st, SV v st ->
+  exists v' view,
+    ssv_sort_lex usort v = Done v' /\
+    SV v' {| sl := sl st; sx := sidx v'; ssorted := true |} /\
+    ssv_iter_sorted v' = Done view /\
+    Permutation view (sl st) /\ StronglySorted lex_le view /\
+    view = isort_by _ lex_cmp (sl st).
+Proof. exact ProofsStrVec.strvec_sort_lex_proof. Qed.
+Check strvec_sort_is_sorted_perm :
+  forall usort : forall T : Type, (T -> T -> comparison) -> list T -> list T,
+  (forall T c l, Permutation l (usort T c l)) ->
+  (forall T c l, total_preorder c -> StronglySorted (fun a b => c a b <> Gt) (usort T c l)) ->
+  forall v st, SV v st ->
+  exists v' view,
+    ssv_sort_lex usort v = Done v' /\
+    SV v' {| sl := sl st; sx := sidx v'; ssorted := true |} /\
+    ssv_iter_sorted v' = Done view /\
+    Permutation view (sl st) /\ StronglySorted lex_le view /\
+    view = isort_by _ lex_cmp (sl st).
+Print Assumptions strvec_sort_is_sorted_perm.
+
+(* sort_by(f) for a comparator that is a total preorder on strings: sorted permutation, strings untouched *)
+Theorem strvec_sort_by_is_sorted_perm :
+  forall usort : forall T : Type, (T -> T -> comparison) -> list T -> list T,
+  (forall T c l, Permutation l (usort T c l)) ->
+  (forall T c l, total_preorder c -> StronglySorted (fun a b => c a b <> Gt) (usort T c l)) ->
+  forall v st (f : bytes -> bytes -> comparison), SV v st -> total_preorder f ->
+  exists v' view,
+    ssv_sort_by usort f v = Done v' /\
+    SV v' {| sl := sl st; sx := sidx v'; ssorted := true |} /\
+    ssv_iter_sorted v' = Done view /\
+    Permutation view (sl st) /\ StronglySorted (fun a b => f a b <> Gt) view.
+Proof. exact ProofsStrVec.strvec_sort_by_proof. Qed.
+Check strvec_sort_by_is_sorted_perm :
+  forall usort : forall T : Type, (T -> T -> comparison) -> list T -> list T,
+  (forall T c l, Permutation l (usort T c l)) ->
+  (forall T c l, total_preorder c -> StronglySorted (fun a b => c a b <> Gt) (usort T c l)) ->
+  forall v st (f : bytes -> bytes -> comparison), SV v st -> total_preorder f ->
+  exists v' view,
+    ssv_sort_by usort f v = Done v' /\
+    SV v' {| sl := sl st; sx := sidx v'; ssorted := true |} /\
+    ssv_iter_sorted v' = Done view /\
+    Permutation view (sl st) /\ StronglySorted (fun a b => f a b <> Gt) view.
+Print Assumptions strvec_sort_by_is_sorted_perm.
+
+(* sort_by_length (which re-uses the previous index vector when it is complete): a permutation ordered by length *)
+Theorem strvec_sort_by_length_is_sorted_perm :
+  forall usort : forall T : Type, (T -> T -> comparison) -> list T -> list T,
+  (forall T c l, Permutation l (usort T c l)) ->
+  (forall T c l, total_preorder c -> StronglySorted (fun a b => c a b <> Gt) (usort T c l)) ->
+  forall v st, SV v st ->
+  exists v' view,
+    ssv_sort_by_length usort v = Done v' /\
+    SV v' {| sl := sl st; sx := sidx v'; ssorted := true |} /\
+    ssv_iter_sorted v' = Done view /\
+    Permutation view (sl st) /\ StronglySorted (fun a b => nlen a <= nlen b) view.
+Proof. exact ProofsStrVec.strvec_sort_by_length_proof. Qed.
+Check strvec_sort_by_length_is_sorted_perm :
+  forall usort : forall T : Type, (T -> T -> comparison) -> list T -> list T,
+  (forall T c l, Permutation l (usort T c l)) ->
+  (forall T c l, total_preorder c -> StronglySorted (fun a b => c a b <> Gt) (usort T c l)) ->
+  forall v st, SV v st ->
+  exists v' view,
+    ssv_sort_by_length usort v = Done v' /\
+    SV v' {| sl := sl st; sx := sidx v'; ssorted := true |} /\
+    ssv_iter_sorted v' = Done view /\
+    Permutation view (sl st) /\ StronglySorted (fun a b => nlen a <= nlen b) view.
+Print Assumptions strvec_sort_by_length_is_sorted_perm.
+
+(* fixed finding (commit 1a81140): without the check of the length field a string of 2^20 bytes is accepted, its
+   length overflows into the sequence-id bits and get() returns the empty string; with the check it is refused *)
+Theorem strvec_long_string_refuted :
+  let ops := [SPush [104]; SPush long_str; SGet 1; SGet 0] in
+  run_outs (ssv_run_with isort_by false ssv_new ops) = Some [OId 0; OId 1; OStr (Some []); OStr (Some [104])] /\
+  run_outs (ssv_run isort_by ssv_new ops) = Some [OId 0; OErr; OStr None; OStr (Some [104])].
+Proof. exact ProofsStrVec.strvec_long_string_refuted_proof. Qed.
+Check strvec_long_string_refuted :
+  let ops := [SPush [104]; SPush long_str; SGet 1; SGet 0] in
+  run_outs (ssv_run_with isort_by false ssv_new ops) = Some [OId 0; OId 1; OStr (Some []); OStr (Some [104])] /\
+  run_outs (ssv_run isort_by ssv_new ops) = Some [OId 0; OErr; OStr None; OStr (Some [104])].
+Print Assumptions strvec_long_string_refuted.
+
+(* ===================== FixedLenStrVec<N> (ModelFixedLen.v) ===================== *)
+
+(* fixedlen_refines_list: for every N and every history of push/get/get_bytes/len/find_exact/count_prefix whose
+   pushed strings are well-formed UTF-8 (they are &str), the arena + (offset:24 | length:8) model never panics and
+   returns what a Vec of strings returns: Err exactly for a string longer than N or 255 bytes or an arena that
+   would reach 2^24 bytes, get = the string as pushed (shorter than N: no padding; embedded NUL: kept),
+   find_exact = first index, count_prefix = number of strings with the prefix *)
+Theorem fixedlen_refines_list :
+  forall n (ops : list fop), Forall fop_wf ops ->
+  exists v', flv_run n flv_new ops = Done (v', snd (fls_run n [] ops)) /\ FV n v' (fst (fls_run n [] ops)).
+Proof. exact ProofsFixedLen.fixedlen_refines_list_proof. Qed.
+Check fixedlen_refines_list :
+  forall n (ops : list fop), Forall fop_wf ops ->
+  exists v', flv_run n flv_new ops = Done (v', snd (fls_run n [] ops)) /\ FV n v' (fst (fls_run n [] ops)).
+Print Assumptions fixedlen_refines_list.
+
+(* fixedlen_get_pushes: all pushes of strings of at most min(N, 255) bytes are accepted while the total stays below
+   2^24 bytes, and get / get_bytes i is the i-th pushed string byte for byte *)
+Theorem fixedlen_get_pushes :
+  forall n (ss : list bytes) i,
+  Forall (fun s => nlen s <= n /\ nlen s <= 255) ss -> Forall (fun s => utf8_valid s = true) ss ->
+  nlen (concat ss) < 16777216 ->
+  exists v', flv_run n flv_new (map FPush ss) = Done (v', map (fun _ => FUnit) ss) /\
+             flv_get v' i = Done (nth_error ss (N.to_nat i)) /\
+             flv_get_bytes v' i = Done (nth_error ss (N.to_nat i)) /\
+             fcnt v' = nlen ss.
+Proof. exact ProofsFixedLen.fixedlen_get_pushes_proof. Qed.
+Check fixedlen_get_pushes :
+  forall n (ss : list bytes) i,
+  Forall (fun s => nlen s <= n /\ nlen s <= 255) ss -> Forall (fun s => utf8_valid s = true) ss ->
+  nlen (concat ss) < 16777216 ->
+  exists v', flv_run n flv_new (map FPush ss) = Done (v', map (fun _ => FUnit) ss) /\
+             flv_get v' i = Done (nth_error ss (N.to_nat i)) /\
+             flv_get_bytes v' i = Done (nth_error ss (N.to_nat i)) /\
+             fcnt v' = nlen ss.
+Print Assumptions fixedlen_get_pushes.
+
+(* a push is refused exactly when the string is longer than N or 255 bytes, or the arena would reach 2^24 bytes *)
+Theorem fixedlen_push_refused_iff :
+  forall n v l s, FV n v l ->
+  (snd (flv_push n v s) = FErr <-> n < nlen s \/ 255 < nlen s \/ 16777216 <= nlen (concat l) + nlen s).
+Proof. exact ProofsFixedLen.fixedlen_push_refused_iff_proof. Qed.
+Check fixedlen_push_refused_iff :
+  forall n v l s, FV n v l ->
+  (snd (flv_push n v s) = FErr <-> n < nlen s \/ 255 < nlen s \/ 16777216 <= nlen (concat l) + nlen s).
+Print Assumptions fixedlen_push_refused_iff.
